@@ -973,3 +973,7 @@ def run(ctx):
     ctx.guard(r07_5)
     ctx.guard(r07_6)
     ctx.guard(r07_7)
+    # the search compares quantised query times with stored node times: a stored time that is not on the tolerance grid (a
+    # root end point that rounds outwards) sends an in-range query past the root, whose parent is None (rule of C06)
+    from . import c06
+    ctx.guard(c06.r06_3)
